@@ -3,6 +3,7 @@ package hclient
 import (
 	"bufio"
 	"bytes"
+	"crypto/tls"
 	"fmt"
 	"io"
 	"net"
@@ -76,9 +77,9 @@ func (r *wireResp) bytes() []byte {
 	return b.Bytes()
 }
 
-func applyMuts(r *wireResp, muts []Mut, host string) {
+func applyMuts(r *wireResp, muts []Mut, scheme, host string) {
 	for _, m := range muts {
-		v := strings.ReplaceAll(m.V, "$HOST", host)
+		v := strings.ReplaceAll(strings.ReplaceAll(m.V, "$SCHEME", scheme), "$HOST", host)
 		switch m.Op {
 		case "status":
 			parts := strings.SplitN(v, " ", 2)
@@ -116,9 +117,10 @@ func applyMuts(r *wireResp, muts []Mut, host string) {
 }
 
 type server struct {
-	sc   *Script
-	ln   net.Listener
-	host string
+	sc     *Script
+	ln     net.Listener
+	host   string
+	scheme string
 
 	mu     sync.Mutex
 	nreq   int
@@ -146,6 +148,11 @@ func newServer(sc *Script) (*server, error) {
 		return nil, err
 	}
 	s := &server{sc: sc, ln: ln, host: ln.Addr().String(), conns: map[net.Conn]struct{}{}}
+	s.scheme = "rtsp"
+	if sc.Cfg.Secure {
+		s.ln = tls.NewListener(ln, serverTLS())
+		s.scheme = "rtsps"
+	}
 	s.wg.Add(1)
 	go s.acceptLoop()
 	return s, nil
@@ -296,6 +303,15 @@ func (s *server) handle(c net.Conn, idx int) {
 	}
 }
 
+func hdr1r(r *wireResp, k string) string {
+	for _, h := range r.hdr {
+		if h[0] == k {
+			return h[1]
+		}
+	}
+	return ""
+}
+
 func hdr1(h base.Header, k string) string {
 	if v, ok := h[k]; ok && len(v) > 0 {
 		return v[0]
@@ -323,13 +339,18 @@ func (s *server) correct(req *base.Request) *wireResp {
 	case base.Options:
 		r.hdr = append(r.hdr, [2]string{"Public", "DESCRIBE, ANNOUNCE, SETUP, PLAY, RECORD, PAUSE, TEARDOWN"})
 	case base.Describe:
-		r.hdr = append(r.hdr, [2]string{"Content-Base", "rtsp://" + s.host + "/stream/"})
+		r.hdr = append(r.hdr, [2]string{"Content-Base", s.scheme + "://" + s.host + "/stream/"})
 		r.hdr = append(r.hdr, [2]string{"Content-Type", "application/sdp"})
-		r.body = []byte(strings.ReplaceAll(sdpFor(s.sc.Medias), "$HOST", s.host))
+		r.body = []byte(strings.ReplaceAll(strings.ReplaceAll(sdpFor(s.sc.Medias), "$SCHEME", s.scheme), "$HOST", s.host))
 	case base.Setup:
 		var th headers.Transport
 		tr := "RTP/AVP;unicast;client_port=5000-5001;server_port=6000-6001"
 		if err := th.Unmarshal(req.Header["Transport"]); err == nil {
+			prof := "RTP/AVP"
+			if th.Profile == headers.TransportProfileSAVP {
+				prof = "RTP/SAVP"
+			}
+			defer func() { r.set("Transport", strings.Replace(hdr1r(r, "Transport"), "RTP/AVP", prof, 1)) }()
 			switch {
 			case th.Protocol == headers.TransportProtocolTCP:
 				ids := [2]int{0, 1}
@@ -422,7 +443,7 @@ func (s *server) perform(c net.Conn, idx int, req *base.Request, acts []Action) 
 		switch a.Kind {
 		case "resp", "half":
 			r := s.correct(req)
-			applyMuts(r, a.Muts, s.host)
+			applyMuts(r, a.Muts, s.scheme, s.host)
 			b := r.bytes()
 			if a.Kind == "half" {
 				write(b[:len(b)/2])
@@ -464,7 +485,11 @@ func (s *server) perform(c net.Conn, idx int, req *base.Request, acts []Action) 
 			return true
 		case "rst":
 			s.killer.Store(true)
-			if tc, ok := c.(*net.TCPConn); ok {
+			nc := c
+			if t, ok := c.(*tls.Conn); ok {
+				nc = t.NetConn()
+			}
+			if tc, ok := nc.(*net.TCPConn); ok {
 				tc.SetLinger(0)
 			}
 			c.Close()
@@ -493,14 +518,25 @@ func (s *server) killerIf(b bool) {
 func sdpFor(ms []MediaSpec) string {
 	var b strings.Builder
 	b.WriteString("v=0\r\no=- 0 0 IN IP4 127.0.0.1\r\ns=Stream\r\nc=IN IP4 0.0.0.0\r\nt=0 0\r\n")
-	for _, m := range ms {
+	for i, m := range ms {
+		prof := "RTP/AVP"
+		if m.Secure {
+			prof = "RTP/SAVP"
+		}
 		switch m.Codec {
 		case "pcmu":
-			b.WriteString("m=audio 0 RTP/AVP 0\r\n")
+			b.WriteString("m=audio 0 " + prof + " 0\r\n")
 		case "opus":
-			b.WriteString("m=audio 0 RTP/AVP 97\r\na=rtpmap:97 opus/48000/2\r\na=fmtp:97 sprop-stereo=1\r\n")
+			b.WriteString("m=audio 0 " + prof + " 97\r\na=rtpmap:97 opus/48000/2\r\na=fmtp:97 sprop-stereo=1\r\n")
 		default:
-			b.WriteString("m=video 0 RTP/AVP 96\r\na=rtpmap:96 H264/90000\r\na=fmtp:96 packetization-mode=1\r\n")
+			b.WriteString("m=video 0 " + prof + " 96\r\na=rtpmap:96 H264/90000\r\na=fmtp:96 packetization-mode=1\r\n")
+		}
+		if m.Secure {
+			km := m.KeyMgmt
+			if km == "" {
+				km = "mikey " + mikeyB64(0x1000+uint32(i))
+			}
+			b.WriteString("a=key-mgmt:" + km + "\r\n")
 		}
 		if m.Back {
 			b.WriteString("a=sendonly\r\n")
